@@ -225,6 +225,63 @@ def state_before(cfg, ins, transfer_elem, node):
     return st
 
 
+# --------------------------------------------------------------------------- enumerator constants through locals
+
+class EnumConsts(object):
+    """Reaching enumerators of local variables: state = frozenset of (decl id, enumerator name | '?').
+    A VarDecl initialised with / an assignment of a plain enumerator gives the variable that value; any
+    other write (other expression, |=, address taken, passed by non-const reference) gives '?'."""
+
+    def __init__(self, f):
+        self.f, self.cfg = f, f.cfg()
+        self.ins = None
+
+    def _enum_of(self, e):
+        e = strip_casts(e)
+        while e is not None and e["k"] in ("ImplicitCastExpr", "ParenExpr", "ExprWithCleanups"):
+            e = strip_casts(e["c"][0]) if e.get("c") else None
+        if e is not None and e["k"] == "DeclRefExpr" and (self.f.decl(e) or {}).get("k") == "EnumConstant":
+            return self.f.decl(e)["n"]
+        return "?"
+
+    def transfer(self, st, n, blk):
+        tgt = val = None
+        if n["k"] == "VarDecl":
+            tgt = n.get("d")
+            val = self._enum_of(n["c"][0]) if n.get("c") and n["c"][0] is not None else "?"
+        elif n["k"] == "BinaryOperator" and n.get("op", "").endswith("=") and n.get("op") not in ("==", "!=", "<=", ">="):
+            l = strip_casts(n["c"][0])
+            if l is not None and l["k"] == "DeclRefExpr":
+                tgt = l.get("d")
+                val = self._enum_of(n["c"][1]) if n.get("op") == "=" else "?"
+        elif n["k"] == "CXXOperatorCallExpr" and n.get("op", "").endswith("=") and \
+                n.get("op") not in ("==", "!=", "<=", ">=") and len(n["c"]) >= 2:
+            l = strip_casts(n["c"][1])
+            if l is not None and l["k"] == "DeclRefExpr":
+                tgt, val = l.get("d"), "?"
+        elif n["k"] == "UnaryOperator" and n.get("op") in ("&", "++", "--"):
+            l = strip_casts(n["c"][0])
+            if l is not None and l["k"] == "DeclRefExpr":
+                tgt, val = l.get("d"), "?"
+        if tgt is None:
+            return st
+        return frozenset(x for x in st if x[0] != tgt) | {(tgt, val)}
+
+    def solve(self):
+        self.ins, _ = forward(self.cfg, frozenset(), self.transfer, join=lambda a, b: a | b)
+        return self
+
+    def values(self, node):
+        """set of enumerator names (or '?') the DeclRefExpr `node` (a local variable) may hold when evaluated"""
+        if self.ins is None:
+            self.solve()
+        st = state_before(self.cfg, self.ins, self.transfer, node)
+        if st is TOP:
+            return {"?"}
+        vals = {v for d, v in st if d == node.get("d")}
+        return vals or {"?"}
+
+
 # --------------------------------------------------------------------------- nullness
 
 def strip_casts(n):
